@@ -7,6 +7,7 @@
 mod rng;
 mod gen;
 mod c01;
+mod c06;
 
 use std::io::{BufRead, Write};
 use std::panic;
@@ -21,6 +22,7 @@ fn exec_line(line: &str) -> String {
         let a: Vec<&str> = args.iter().map(|s| s.as_str()).collect();
         match prop.as_str() {
             "C01" => c01::exec(&op, &a),
+            "C06" => c06::exec(&op, &a),
             _ => format!("harness-unknown-property {}", prop),
         }
     });
@@ -62,6 +64,7 @@ fn main() {
             };
             match prop {
                 "C01" => c01::generate(&mut rng, tier, shard, nshards, &mut emit),
+                "C06" => c06::generate(&mut rng, tier, shard, nshards, &mut emit),
                 _ => { eprintln!("unknown property {}", prop); std::process::exit(2); }
             }
         }
